@@ -29,6 +29,9 @@ is_type = z3.Function("py_is_type", ValS, z3.BoolSort())
 type_of = z3.Function("py_type_of", ValS, ValS)
 
 
+str_contains = z3.Function("str_contains", TStr.sort(), TStr.sort(), z3.BoolSort())  # str_contains(s, sub): `sub in s`
+
+
 def type_const(name: str):
     """The Val standing for a builtin / external class object (dict, numpy.ndarray, collections.abc.Mapping...)."""
     return z3.Const("val_const_" + name.replace(".", "_"), ValS)
@@ -93,6 +96,9 @@ class GrammarModels:
         """``Mapping.__contains__``: try self[key] / except KeyError."""
         from .engine import PyRaise
 
+        if (isinstance(cont, SV) and cont.ty == TStr) and (isinstance(item, str) or (isinstance(item, SV) and item.ty == TStr)):
+            # substring test on an opaque string: uninterpreted
+            return SV(str_contains(cont.term, TStr.embed(ex.st, item)), TBool)
         o = _cls_of(ex, cont)
         if o is None or not _is_mapping_cls(o.cls) or S.find_method(o.cls, "__contains__") is not None:
             return NotImplemented
@@ -268,6 +274,8 @@ class GrammarModels:
 
     def call_builtin(self, ex, name, args, kwargs, lineno, node=None):
         st = ex.st
+        if name.startswith("msgbuilder."):
+            return None
         if name == "dict.fromkeys" and len(args) == 2:
             val = as_val(ex, args[1])
             if val is None:
@@ -294,5 +302,10 @@ class GrammarModels:
             return SV(st.fresh_const("pretty", TStr.sort()), TStr)
         return NotImplemented
 
-    def truth(self, ex, v):
+    def shallow_copy(self, ex, v, lineno):
+        """copy.copy of an instance of a class without __copy__/__reduce__ overrides: a new instance of the same class whose
+        attributes are the *same* objects (object.__reduce_ex__ copies the instance __dict__ shallowly)."""
+        o = _cls_of(ex, v)
+        if o is not None and o.cls == RN and S.find_method(o.cls, "__copy__") is None:
+            return ex.st.alloc(PyObj(o.cls, dict(o.fields)))
         return NotImplemented
